@@ -14,7 +14,20 @@
        - the history ends with such a process.
    Detailed = TRUE: design conformance (drift detection / showing that the Legacy variants reproduce the unrepaired
      tree): the recorded events must be a behaviour of ParseFolder step by step (to-do list, every write in order,
-     folder contents, exit status).                                                                              *)
+     folder contents, exit status).
+
+   Trace kind "fresh" (a trace that carries the field `reference`; harness/pf_fresh.py): the uninterrupted run and every
+   killed / resumed run of the history descend from a NEW interpreter in which no page was ever handled (what is kept in
+   memory - module-level caches, memo tables - dies with a killed process; the other traces fork every process from the
+   harness process, where such state is already filled identically for the reference and for every resumed run), on a
+   batch of realistic pages: the same region / line ids on every page (LineIds), page-specific geometry and text.
+   The property clauses are the SAME (PRun); one step precedes them:
+       - PRef: the baseline "an uninterrupted run" is usable: the recorded reference process was handed every page in
+         order, ended by itself cleanly with every requested output of every page present, and a second uninterrupted
+         run in another process produced the same bytes for every file (flag per file).  The per-file equality flags of
+         the history are computed by the harness from byte strings TLC cannot hold (SHA-1 after stripping time stamps);
+         TLC judges the recorded flags, the listing and the process records.
+     A trace rejected at r = 0 (progress < 100) says nothing about C17: the driver reports it as MODEL-DRIFT.          *)
 EXTENDS ParseFolder, TraceKit
 CONSTANT Detailed
 VARIABLES tid, r, j
@@ -29,23 +42,35 @@ AllEqualReference(i) == \A n \in 1..Len(Tr.runs[i].files) : Tr.runs[i].files[n][
 IsPrefix(s, t) == Len(s) <= Len(t) /\ SubSeq(t, 1, Len(s)) = s
 ExitStatus(e) == IF e = "exception:ZeroDivisionError" THEN "ZeroDivisionError" ELSE e
 
+\* trace kind "fresh": the recorded uninterrupted run
+IsFresh == "reference" \in DOMAIN Tr
+Ref == Tr.reference
+ObsRef == {FileOf(Ref.files[n]) : n \in 1..Len(Ref.files)}
+RefUsable == /\ Ref.started = Order /\ Ref.exit = "ok"
+             /\ PropRunEnd("ok", ObsRef)
+             /\ ObsRef \subseteq UNION {FilesOf(p) : p \in Pages}
+             /\ \A n \in 1..Len(Ref.files) : Ref.files[n][3]          \* reproduced by a second uninterrupted run
+PRef == /\ r = 0 /\ IsFresh /\ RefUsable
+        /\ r' = 1 /\ UNCHANGED <<vars, tid, j>>
+
 TInit == /\ tid \in 1..NTraces
-         /\ Init /\ r = 1 /\ j = 0
+         /\ Init /\ r = (IF IsFresh THEN 0 ELSE 1) /\ j = 0
          \* the recorded input is the one the constants describe
          /\ Traces[tid].order = Order
          /\ {Traces[tid].kinds[i] : i \in 1..Len(Traces[tid].kinds)} = Kinds
          /\ Traces[tid].nlines = NLines
 
 \* ---------------------------------------------------------------- property level
-PNext == /\ r <= NRuns
-         /\ PropRunStart(disk, Run.started)
-         /\ (Run.exit # "killed") => (PropRunEnd(ExitStatus(Run.exit), Obs(r)) /\ AllEqualReference(r))
-         /\ disk' = Obs(r) /\ r' = r + 1
-         /\ phase' = IF Run.exit = "killed" THEN "idle" ELSE "done"
-         /\ UNCHANGED <<todo, w, n0, crashes, status, skippedIncomplete, redoneComplete, tid, j>>
+PRun == /\ r >= 1 /\ r <= NRuns
+        /\ PropRunStart(disk, Run.started)
+        /\ (Run.exit # "killed") => (PropRunEnd(ExitStatus(Run.exit), Obs(r)) /\ AllEqualReference(r))
+        /\ disk' = Obs(r) /\ r' = r + 1
+        /\ phase' = IF Run.exit = "killed" THEN "idle" ELSE "done"
+        /\ UNCHANGED <<todo, w, n0, crashes, status, skippedIncomplete, redoneComplete, tid, j>>
+PNext == PRef \/ PRun
 
 \* ---------------------------------------------------------------- design level
-DStart == /\ r <= NRuns /\ StartRun
+DStart == /\ r >= 1 /\ r <= NRuns /\ StartRun
           /\ IsPrefix(Run.started, todo')
           /\ Run.n0known => n0' = Run.n0
           /\ (Run.exit # "killed") => Run.started = todo'
@@ -61,9 +86,9 @@ DFinish == /\ phase = "running" /\ j = Len(Run.writes) /\ Run.exit # "killed" /\
            /\ Obs(r) = disk /\ AllEqualReference(r)
            /\ r' = r + 1 /\ UNCHANGED <<tid, j>>
 \* a further process after one that ended by itself (only met when a scheduled kill did not fire)
-DAgain == /\ phase = "done" /\ r <= NRuns
+DAgain == /\ phase = "done" /\ r >= 1 /\ r <= NRuns
           /\ phase' = "idle" /\ UNCHANGED <<disk, todo, w, n0, crashes, status, skippedIncomplete, redoneComplete, tid, r, j>>
-DNext == DStart \/ DWrite \/ DCrash \/ DFinish \/ DAgain
+DNext == PRef \/ DStart \/ DWrite \/ DCrash \/ DFinish \/ DAgain
 
 TNext == IF Detailed THEN DNext ELSE PNext
 
